@@ -34,6 +34,8 @@ class C01Box(Monitor):
             self.cov(f"on_face.{where}", onf)
             if self.ctx.desc.get("box", {}).get("cls") == "overshoot" and where.startswith("EADeme") and any(lv.get("engine") == "ga" for lv in self.ctx.desc.get("levels", [])[1:]):
                 self.cov("ga_style_deme_evaluations_with_a_coordinate_exactly_on_a_face_of_a_decimal_box", onf)
+        if self.ctx.desc.get("box", {}).get("cls") == "nano" and where.startswith("LocalDeme"):
+            self.cov("local_search_evaluations_in_a_box_narrower_than_a_derivative_step", end - start)
         if self.ctx.desc.get("use_cache") and self.ctx.desc.get("box", {}).get("cls") == "fullprec":
             hair = int(((np.abs(arr - self.ctx.lo) <= 1e-12) | (np.abs(self.ctx.hi - arr) <= 1e-12)).any(axis=1).sum())
             if hair:
